@@ -232,6 +232,25 @@ def zc_table(c):
     return memo(c, "zc", run)
 
 
+def seg_params(c):
+    """(width, rate) of the splice segment; the audio's own unless the case says otherwise"""
+    return c.get("segw", c["w"]), c.get("segrate", c["rate"])
+
+
+def splice_rejected(c):
+    """why audioSplice must refuse the call before doing anything (the property speaks of 'all textgrids x insertion
+    points' of the textgrid; a segment is audio of the recording's kind): None when the call is admissible"""
+    if seg_params(c) != (c["w"], c["rate"]):
+        return "segment-params"
+    a, b = c["a"], c["b"]
+    if b is not None and Fraction(a) > Fraction(b):
+        return "reversed-region"
+    lo, hi = Fraction(c["tg"]["lo"]), Fraction(c["tg"]["hi"])
+    if any(t is not None and not lo <= Fraction(t) <= hi for t in (a, b)):
+        return "outside-span"
+    return None
+
+
 def splice_pre(c):
     """what audioSplice computes before it touches the textgrid: the aligned times and the cut segment"""
     def run():
@@ -239,6 +258,10 @@ def splice_pre(c):
         seg = bytes.fromhex(c["seg"])
         a, b = c["a"], c["b"]
         out = {"shifts": [], "a": a, "b": b, "seg": seg, "fail": None}
+        if splice_rejected(c) is not None:      # refused before any search or cut
+            out["d"] = len(seg) / rate / w
+            out["cut_exact"] = False
+            return out
         if c["align"]:
             sw = mkwav(c["seg"], w, rate)
             wv = mkwav(c["hex"], w, rate)
@@ -334,8 +357,10 @@ def encode(c, enc):
             au = f"{c['w']} {c['rate']} h{c['hex']} h{pre['seg'].hex()} {q(a)} {'N' if b is None else q(b)}"
         else:
             au = "N"
+        same = seg_params(c) == (c["w"], c["rate"])
         return " ".join(x for x in [f"z_splice {tgops.enc_tg(enc, c['tg'])} {len(pre['shifts'])}", sh, enc.s(c["tier"]), enc.s(c["label"]),
-                                     enc.time(a), enc.otime(b), enc.time(pre["d"]), au] if x != "")
+                                     enc.time(a), enc.otime(b), enc.time(pre["d"]), enc.b(same), enc.time(c["a"]), enc.otime(c["b"]),
+                                     au] if x != "")
     raise KeyError(op)
 
 
@@ -380,14 +405,15 @@ def impl(c):
     if op == "splice":
         g = tgops.build(c["tg"])
         wv = mkwav(c["hex"], c["w"], c["rate"])
-        sw = mkwav(c["seg"], c["w"], c["rate"])
+        sw = mkwav(c["seg"], *seg_params(c))
         before = tgops.snap(g)
+        wav_before, seg_before = bytes(wv.frames), bytes(sw.frames)
 
         def run():
             w2, g2 = praatio_scripts.audioSplice(wv, sw, g, c["tier"], c["label"], c["a"], c["b"], c["align"])
             return {"tg": tgops.snap(g2), "frames": w2.frames.hex(), "duration": w2.duration}
         r = guarded(run, limit=4 * TIMEOUT)
-        return r + ({"tg_untouched": tgops.snap(g) == before},)
+        return r + ({"tg_untouched": tgops.snap(g) == before, "wav_untouched": wv.frames == wav_before and sw.frames == seg_before},)
     raise KeyError(op)
 
 
@@ -592,6 +618,19 @@ def oracle_splice(c, r):
     if r[0] == "timeout":
         return Failure(dict(sig, clause="nonterminating"), "audioSplice did not return")
     named = next(t for t in g["tiers"] if t["name"] == c["tier"])
+    extra = r[-1] if isinstance(r[-1], dict) else {}
+    why = splice_rejected(c)
+    if why is not None:
+        # outside the property's domain: the call must be refused with ArgumentError and nothing may have been touched
+        sig = dict(sig, rejected=why)
+        if not (r[0] == "err" and r[1] == "ArgumentError" and r[2]):
+            return Failure(dict(sig, clause="argument-check"), f"audioSplice ({why}: a={a}, b={b}, segment {seg_params(c)}, audio {(w, rate)}, "
+                           f"textgrid [{g['lo']}, {g['hi']}]) gave {r[0]} {r[1] if r[0] == 'err' else ''}, not ArgumentError")
+        if not (extra.get("wav_untouched", True) and extra.get("tg_untouched", True)):
+            return Failure(dict(sig, clause="rejected-unchanged"), f"audioSplice ({why}) raised but changed the caller's audio or textgrid")
+        return None
+    if r[0] == "err" and not (extra.get("wav_untouched", True) and extra.get("tg_untouched", True)):
+        return Failure(dict(sig, clause="raised-unchanged", exc=r[1]), f"audioSplice raised {r[1]} after it had changed the caller's audio or textgrid")
     if r[0] == "err":
         if align:
             pre = splice_pre(c)
@@ -728,6 +767,7 @@ def tags(c, r):
             S = decode(bytes.fromhex(c["hex"]), c["w"])
             out.append("findzc:" + ("crossing-exists" if any(genuine(S, i) for i in range(len(S))) else "no-crossing"))
     if op == "splice":
+        out.append("rejected:%s" % splice_rejected(c))
         out.append("align:%d" % c["align"])
         out.append("region:%d" % (c["b"] is not None))
     if op in ("tgzc", "splice", "shift"):
@@ -916,8 +956,27 @@ def gen_splice(rnd, align=None):
         later = [x for x in pool if x > a]
         if later:
             b = rnd.choice(later)
-    return {"op": "splice", "w": w, "rate": rate, "hex": h, "seg": seg, "style": style, "tg": tg, "tier": named["name"],
-            "label": "NEW", "a": a, "b": b, "align": align}
+    c = {"op": "splice", "w": w, "rate": rate, "hex": h, "seg": seg, "style": style, "tg": tg, "tier": named["name"],
+         "label": "NEW", "a": a, "b": b, "align": align}
+    # the formerly unexplored inputs (defect C18-3): an insertion point or region end outside the textgrid's span, a
+    # reversed region, a segment of another frame rate or sample width
+    k = rnd.random()
+    D = n / rate
+    if k < 0.05:
+        c["a"] = rnd.choice([-1.0 / rate, -0.5, -D, D + 1.0 / rate, D + 0.5, 2 * D + 1.0, 1e6, -1e6])
+        if c["b"] is not None and rnd.random() < 0.5:
+            c["b"] = max(c["b"], c["a"])
+    elif k < 0.08:
+        c["b"] = rnd.choice([D + 1.0 / rate, D + 0.5, 2 * D + 1.0, 1e6])
+    elif k < 0.11 and b is not None and b > a:
+        c["a"], c["b"] = b, a
+    elif k < 0.15:
+        if rnd.random() < 0.5:
+            c["segrate"] = rnd.choice([r for r in (8, 64, 1024, 8000, 16000, 44100, 2 * rate) if r != rate])
+        else:
+            c["segw"] = rnd.choice([x for x in WIDTHS if x != w])
+            c["seg"] = enc_samples(gen_samples(rnd, c["segw"], sn, "random"), c["segw"]).hex()
+    return c
 
 
 def gen_shift(rnd):
@@ -988,6 +1047,21 @@ def corpus():
     yield {"op": "find", "w": 2, "rate": 8, "hex": enc_samples([0] * 2, 2).hex(), "style": "zero", "t": 0.0, "step": 0.25}
     # ties go left
     yield {"op": "find", "w": 1, "rate": 8, "hex": enc_samples([1, 0, 1, 1, 1, 0, 1], 1).hex(), "style": "sparse-zero", "t": 0.375, "step": 0.5}
+    # C18-3 (fixed, f81e27e): audioSplice accepted an insertion point outside the textgrid's span and a segment of another
+    # rate / width, and had edited the caller's Wav before it raised (CollisionError, KeyError, reversed region)
+    tg = {"lo": 0.0, "hi": 12.5, "tiers": [{"k": "I", "name": "T", "lo": 0.0, "hi": 12.5,
+                                              "es": [[1.25, 3.75, "a"], [3.75, 7.5, "b"], [10.0, 11.25, "c"]]}]}
+    base = {"op": "splice", "w": 2, "rate": 8, "hex": enc_samples([(i % 7) - 3 for i in range(100)], 2).hex(),
+            "seg": enc_samples([5, -5, 5, -5, 5], 2).hex(), "style": "corpus", "tg": tg, "tier": "T", "label": "NEW", "b": None, "align": False}
+    yield dict(base, a=13.0)
+    yield dict(base, a=-1.0)
+    yield dict(base, a=8.0, b=13.0)
+    yield dict(base, a=8.0, segrate=16)
+    yield dict(base, a=8.0, segw=1, seg=enc_samples([5, -5, 5, -5, 5], 1).hex())
+    yield dict(base, a=9.0, b=8.0)
+    yield dict(base, a=2.5)             # strictly inside an interval: CollisionError, the caller's audio untouched
+    yield dict(base, a=8.0)
+    yield dict(base, a=8.0, b=9.0)
     yield {"op": "next", "xs": [3, -3], "rev": False}
     yield {"op": "next", "xs": [3, -2], "rev": True}
     yield {"op": "next", "xs": [5, 5, 0, -1, 0, 2], "rev": True}
